@@ -359,6 +359,7 @@ def main(argv):
         "rule": getattr(mod, "RULE", ""),
         "samples": samples[:6] + [{"witness": v} for v in violations[:3]],
         "exhaustive": bool(counters.get("exhaustive_spaces", 0)) and getattr(mod, "EXHAUSTIVE", False),
+        "exhaustive_subspaces": getattr(mod, "EXHAUSTIVE_NOTE", "none"),
         "counters": {k: counters[k] for k in sorted(counters)},
         "sets": {k: (sorted(v) if len(v) <= 400 else {"size": len(v)}) for k, v in sets.items()},
         "reach_conditions": reach,
